@@ -187,6 +187,38 @@ async fn end_to_end(log: &Log, sched: &Sched, r: &mut Rng, n: u64) {
     }
 }
 
+/// (a') histories that cross the cache lifetime (60 s of real time): thorough tier only
+async fn resolver_beyond_ttl(log: &Log, r: &mut Rng) {
+    log.reset(json!({"kind": "resolver-beyond-ttl"}));
+    anytls_rs::util::dns_cache::verif_clear().await;
+    let lo = vec![ipcells(IpAddr::V4(Ipv4Addr::LOCALHOST)), ipcells(IpAddr::V6(Ipv6Addr::LOCALHOST))];
+    // an entry filled by a real lookup, and one filled for another port with an address that a fresh lookup will NOT return
+    let stale = IpAddr::V4(Ipv4Addr::new(127, 9, 9, 9));
+    let name2 = "localhost".to_string();
+    for (phase, wait) in [("fresh", 0u64), ("within", 5), ("beyond", 57)] {
+        if wait > 0 { tokio::time::sleep(Duration::from_secs(wait)).await; }
+        if phase == "fresh" {
+            let port = *r.pick(&PORTS);
+            match anytls_rs::util::resolve_host_with_cache(&name2, port).await {
+                Ok(sa) => ev!(log, "resolve", host: name2, port: port, ok: true, ip: ipcells(sa.ip()), ansport: sa.port(), allowed: lo),
+                Err(_) => ev!(log, "resolve", host: name2, port: port, ok: false, ip: Vec::<i64>::new(), ansport: 0, allowed: lo),
+            }
+            // replace the entry by a stale one (as if the host had moved): valid until the TTL runs out
+            anytls_rs::util::dns_cache::verif_preseed(&name2, vec![SocketAddr::new(stale, 1)]).await;
+        }
+        for _ in 0..4 {
+            let port = *r.pick(&PORTS);
+            // within the TTL the cached (stale) address is a legitimate answer; beyond it only a fresh lookup is
+            let allowed = if phase == "beyond" { lo.clone() } else { vec![ipcells(stale), lo[0].clone(), lo[1].clone()] };
+            match anytls_rs::util::resolve_host_with_cache(&name2, port).await {
+                Ok(sa) => ev!(log, "resolve", host: name2, port: port, ok: true, ip: ipcells(sa.ip()), ansport: sa.port(), allowed: allowed),
+                Err(_) => ev!(log, "resolve", host: name2, port: port, ok: false, ip: Vec::<i64>::new(), ansport: 0, allowed: allowed),
+            }
+        }
+    }
+    ev!(log, "end", panics: 0);
+}
+
 pub fn run(args: &Args, log: &Log) -> Result<(), String> {
     let thorough = args.tier == "thorough";
     std::panic::set_hook(Box::new(|_| { PANICS.fetch_add(1, Ordering::SeqCst); }));
@@ -198,6 +230,7 @@ pub fn run(args: &Args, log: &Log) -> Result<(), String> {
         resolver_histories(log, &mut r, if thorough { 2000 } else { 150 }).await;
         server_decoder(log, &sched, &mut r, if thorough { 1500 } else { 120 }, thorough).await;
         end_to_end(log, &sched, &mut r, if thorough { 300 } else { 25 }).await;
+        if thorough { resolver_beyond_ttl(log, &mut r).await; }
     });
     rt.shutdown_timeout(Duration::from_millis(200));
     Sched::uninstall();
